@@ -135,28 +135,19 @@ let result_str = function
   | REmptyPlan -> "emptyplan"
   | RPending -> "pending"
 
-(* the property on an observed trace of the real loop: a non-idempotent request is re-sent
-   only after a safe error; Default never continues after an error at serial consistency;
-   events within plan length + same-target budget *)
-let trace_viol p idem nplan (obs_events : string list) : string option =
-  let parse ev =
-    if ev.[0] = 'c' then None
-    else match String.split_on_char '/' (String.sub ev 1 (String.length ev - 1)) with
-      | [_; cl; "ok"] -> Some (cl_of cl, None)
-      | [_; cl; e; _] -> Some (cl_of cl, Some e)
-      | _ -> failwith "bad event" in
-  let evs = List.map parse obs_events in
-  let safe_class e = List.mem e ["E.UnableToAllocStreamId"; "Db.Unavailable"; "Db.IsBootstrapping"; "Db.ReadTimeout"] in
-  let rec go = function
-    | Some (cl, Some e) :: (_ :: _ as rest) ->
-      if (not idem) && not (safe_class e) then Some ("resent-after=" ^ e)
-      else if p = PDefault && is_serial cl then Some "default-continued-at-serial"
-      else go rest
-    | _ :: rest -> go rest
-    | [] -> None in
-  match go evs with
-  | Some v -> Some v
-  | None -> if List.length evs > nplan + int_of_nat (same_target_budget p) then Some "events-exceed-bound" else None
+(* the observed trace as model events: an error class stands for any error of that class (the
+   property predicate only looks at the class); decisions are not needed by the predicate *)
+let obs_event (ev : string) : n event =
+  let num s = n_of_hex s in
+  if ev.[0] = 'c' then EvConnFail (num (String.sub ev 1 (String.length ev - 1)))
+  else match String.split_on_char '/' (String.sub ev 1 (String.length ev - 1)) with
+    | [t; cl; "ok"] -> EvAttempt (num t, cl_of cl, AOk)
+    | [t; cl; e; _] ->
+      let e = match e with
+        | "Db.Unavailable" -> "Db.Unavailable:One:0:0" | "Db.ReadTimeout" -> "Db.ReadTimeout:One:0:0:0"
+        | "Db.WriteTimeout" -> "Db.WriteTimeout:One:0:0:Simple" | e -> e in
+      EvAttempt (num t, cl_of cl, AErr (err_of e, DontRetry))
+    | _ -> failwith "bad event"
 
 let fiber_case p idem cl0 nplan outs impl =
   let p = policy_of p in
@@ -168,9 +159,10 @@ let fiber_case p idem cl0 nplan outs impl =
   if String.concat " " impl = model then "ok"
   else
     let rec upto = function "=>" :: _ | [] -> [] | x :: r -> x :: upto r in
-    match (try trace_viol p idem nplan (upto impl) with _ -> None) with
-    | Some v -> "viol " ^ v ^ " model=" ^ String.concat "," (List.map event_str tr @ [result_str r])
-    | None -> "diff model=" ^ String.concat "," (List.map event_str tr @ [result_str r])
+    (* the property predicate (C06_trace_prop_ok) on the implementation's own trace *)
+    match (try Some (prop_trace_ok p idem (nat_of_int nplan) (List.map obs_event (upto impl))) with _ -> None) with
+    | Some false -> "viol trace-violates-property model=" ^ String.concat "," (List.map event_str tr @ [result_str r])
+    | _ -> "diff model=" ^ String.concat "," (List.map event_str tr @ [result_str r])
 
 let verdict case impl =
   match case with
